@@ -44,6 +44,8 @@ def run(ctx):
     # and marking entry points
     from . import C13
     ctx.do(C13.rule_no_param_mutation, rule_id="C05.previous-version-untouched", modules=("stix2.versioning", "stix2.markings.granular_markings", "stix2.markings.object_markings", "stix2.markings.utils", "stix2.markings"), floor=20)
+    from . import C15 as _C15v
+    ctx.do(_C15v.rule_value_object, rule_id="C05.instants")
     from .hidden_state import rule_no_hidden_state
     ctx.do(rule_no_hidden_state, "C05.history-independence")
 
